@@ -385,9 +385,12 @@ func (r *Resolver) Resolve(ctx context.Context, name string) (ResolveResult, err
 		if err != nil && !errors.Is(err, ErrNonExistentDomain) {
 			return result, err
 		}
-		if len(https) > 0 {
+		// An RRSet with an AliasMode record is an alias, wherever the record
+		// is in the answer. Its ServiceMode records are ignored. RFC 9460
+		// 2.4.1
+		if i := slices.IndexFunc(https, func(v any) bool { return v.(dns.HTTPS).Priority == 0 }); i >= 0 {
 			// Alias Mode: Priority = 0
-			v := https[0].(dns.HTTPS)
+			v := https[i].(dns.HTTPS)
 			if v.Priority == 0 && len(v.Target) == 0 {
 				result.HTTPS = nil
 				break
